@@ -215,8 +215,19 @@ func (g *Group) foldEvent(t *TraceWriter, rc *recipe, points reflect.Value, coef
 	e["npoints"] = points.Len()
 	recv := g.usedJac()
 	cf := fr.NewRaw(fr.ToMont(coeff))
-	out, pm, pk := call(method(recv, "Fold"), points, cf.Elem(), reflect.ValueOf(ecc.MultiExpConfig{NbTasks: nbTasks}))
-	if pk {
+	var out []reflect.Value
+	var pm string
+	var pk bool
+	if msmHangs >= 3 {
+		return
+	}
+	ok := withWatchdog(msmWatchdog, func() {
+		out, pm, pk = call(method(recv, "Fold"), points, cf.Elem(), reflect.ValueOf(ecc.MultiExpConfig{NbTasks: nbTasks}))
+	})
+	if !ok {
+		msmHangs++
+		e["hang"] = true
+	} else if pk {
 		e["panic"] = pm
 	} else {
 		e["iserr"] = !out[1].IsNil()
@@ -302,6 +313,9 @@ func runC04(args []string) {
 			k := 0
 			for _, n := range sizes {
 				for pi, pat := range pats {
+					if msmHangs >= 3 {
+						break // the goroutines of the hung calls keep spinning: do not build further inputs next to them
+					}
 					if !full && n > 64 && pi%3 != k%3 {
 						continue
 					}
@@ -320,7 +334,7 @@ func runC04(args []string) {
 				}
 			}
 			// (2) errors: length mismatch and NbTasks > 1024
-			{
+			if msmHangs < 3 {
 				rc := mk("lin", 5, 0)
 				pts, scs := g.buildInputs(rc)
 				g.msmEvent(t, rc, pts, scs.Slice(0, 4), "MultiExp.jac", 0, 2, 16, false)
@@ -347,6 +361,9 @@ func runC04(args []string) {
 				}
 				// "small" puts all the work into the first window: an overweight chunk, split over two goroutines (c >= 10)
 				for _, pat := range []string{"lin", "few", "onehot", "pm", "inf", "collide", "same", "small"} {
+					if msmHangs >= 3 {
+						break
+					}
 					n := 300
 					if cw >= 10 {
 						n = 1500 // enough filled buckets for the batch-affine processor (c=10: 80 ... c=16: 640)
